@@ -20,7 +20,11 @@ Sets == [
   \* the REGION decides the script, hence the direction (Punjabi in Pakistan, Azerbaijani in Iran, Uzbek in Afghanistan are written
   \* right to left), next to the same languages without a region and with an explicit script
   G |-> << <<"e","n">>, <<"p","a">>, <<"p","a","DASH","P","K">>, <<"a","z">>, <<"a","z","DASH","I","R">>, <<"a","z","DASH","A","r","a","b">>,
-           <<"u","z","DASH","A","F">>, <<"a","r","DASH","E","G">>, <<"h","e","DASH","I","L">> >> ]
+           <<"u","z","DASH","A","F">>, <<"a","r","DASH","E","G">>, <<"h","e","DASH","I","L">> >>,
+  \* valid language identifiers of less usual shapes: the undetermined language, a variant without region, numeric regions, a
+  \* name in the wrong case, a variant after the language
+  H |-> << <<"e","n">>, <<"u","n","d">>, <<"d","e","DASH","1","9","9","6">>, <<"e","n","DASH","0","0","1">>, <<"e","s","DASH","4","1","9">>,
+           <<"E","N","DASH","g","b">>, <<"c","a","DASH","v","a","l","e","n","c","i","a">> >> ]
 
 Lower == [A |-> "a", B |-> "b", C |-> "c", D |-> "d", E |-> "e", F |-> "f", G |-> "g", H |-> "h", I |-> "i", J |-> "j", K |-> "k", L |-> "l", M |-> "m",
           N |-> "n", O |-> "o", P |-> "p", Q |-> "q", R |-> "r", S |-> "s", T |-> "t", U |-> "u", V |-> "v", W |-> "w", X |-> "x", Y |-> "y", Z |-> "z"]
